@@ -253,7 +253,9 @@ def evaluate__mod_operator(self: XPathToken, context: ta.ContextType = None) \
             # Python's % takes the sign of the divisor, xs:double mod the one of the dividend
             result = op1 % op2  # type: ignore[operator]
             return type(result)(math.fmod(op1, op2))
-        return op1 % op2  # type: ignore[operator]
+        # integer and decimal operands: the operator % rounds the remainder to the precision
+        # of the decimal context and fails on a quotient with more digits than that
+        return decimal_remainder(op1, op2)  # type: ignore[arg-type]
     except TypeError as err:
         raise self.error('FORG0006', err) from None
     except ValueError:
@@ -263,10 +265,6 @@ def evaluate__mod_operator(self: XPathToken, context: ta.ContextType = None) \
     except (ZeroDivisionError, decimal.InvalidOperation) as err:
         if op2 == 0:
             raise self.error('FOAR0001') from None
-        elif isinstance(op1, (int, decimal.Decimal)) and isinstance(op2, (int, decimal.Decimal)):
-            # the quotient has more digits than the precision of the context,
-            # but the remainder of exact operands is exact anyway
-            return decimal_remainder(op1, op2)
         raise self.error('FOAR0002', err) from None
 
 
